@@ -10,6 +10,8 @@
   the seeded regressions have (a short round counted in full; a short round not counted) are refuted by concrete
   schedules (`countedFull_overcounts`, `notCounted_undercounts`).  `judge_meaning` says what an accepted record of the
   staging-loop matrix (vlib/stagecamp.py, `sfmodel stage judge`) means; `kernels_*` tie the kernel table to `stageLen`.
+  KF-C15-TORN-ITEM: `no_fragment_full` (a call that will not be followed by a seek left no fragment) is refuted by `no_fragment_full_fails`
+  (7 of 8 bytes, 16-bit mono) and holds outside the class `KF.tornItem` (`no_fragment_partial`).
 -/
 import SfModel.StageLoop
 import SfProofs.Faults
@@ -167,6 +169,93 @@ theorem asWritten_counts :
 example : ∃ d, stored (writeLoop halfOracle 1 8 wBytes 12 [] 0 0).2.2 = stored ([] : Hist) + d ∧
     (writeLoop halfOracle 1 8 wBytes 12 [] 0 0).1 = 0 + d / 1 :=
   writeLoop_counts_stored halfOracle halfOracle_contract 1 8 (by decide) wBytes 12 [] 0 0
+
+/-! ## KF-C15-TORN-ITEM: a transfer that ends inside an ITEM (full statement, its refutation, the partial theorem) -/
+
+/-- FULL STRENGTH: a write call that keeps `last_op` (so that the next call will not seek) left no fragment behind — the bytes
+    the I/O layer accepted are exactly the items the call returned -/
+def no_fragment_full : Prop :=
+  ∀ (o : Oracle), o.Contract → ∀ (h : H) (hist : Hist) (ty : Ty) (len : Int) (data : List Int), 0 < h.nb → 0 < h.ch →
+    (writeTail o h hist ty false len data).h.lastOp = .w →
+    ∃ d, stored (writeTail o h hist ty false len data).hist = stored hist + d ∧
+         ((d : Nat) : Int) = (writeTail o h hist ty false len data).out.ret * (h.nb : Int)
+
+/-- the class of the known finding: the bytes accepted end inside an item while the complete items are whole frames -/
+def KF.tornItem (d nb ch : Nat) : Prop := d % nb ≠ 0 ∧ (d / nb) % ch = 0
+
+/-- PARTIAL: outside the class the statement holds, for every oracle inside the contract -/
+theorem no_fragment_partial (o : Oracle) (hc : o.Contract) (h : H) (hist : Hist) (ty : Ty) (len : Int) (data : List Int)
+    (hnb : 0 < h.nb) (hch : 0 < h.ch) (hl : (writeTail o h hist ty false len data).h.lastOp = .w) :
+    ∃ d, stored (writeTail o h hist ty false len data).hist = stored hist + d ∧
+         (¬ KF.tornItem d h.nb h.ch → ((d : Nat) : Int) = (writeTail o h hist ty false len data).out.ret * (h.nb : Int)) := by
+  obtain ⟨d, hs, hr⟩ := writeLoop_counts_stored o hc h.nb (stageLen h.enc ty true) hnb
+    (h.enc.encodeAll h.conv ty (data.take len.toNat)) len.toNat hist 0 0
+  refine ⟨d, hs, ?_⟩
+  intro hk
+  have hl' : (wholeFrames ((writeLoop o h.nb (stageLen h.enc ty true) (h.enc.encodeAll h.conv ty (data.take len.toNat)) len.toNat hist 0 0).1 : Int) h.ch .w).2 = .w := hl
+  have hret : (writeTail o h hist ty false len data).out.ret =
+      (wholeFrames ((writeLoop o h.nb (stageLen h.enc ty true) (h.enc.encodeAll h.conv ty (data.take len.toNat)) len.toNat hist 0 0).1 : Int) h.ch .w).1 := rfl
+  rw [hret]
+  rw [hr, Nat.zero_add] at hl' ⊢
+  -- last_op kept: the item count is a whole number of frames, the call returns it unchanged
+  have hm : ((d / h.nb : Nat) : Int) % (h.ch : Int) = (((d / h.nb) % h.ch : Nat) : Int) := by simp
+  unfold wholeFrames at hl' ⊢
+  by_cases hcase : h.ch ≤ 1 ∨ ((d / h.nb : Nat) : Int) % (h.ch : Int) = 0
+  · simp only [hcase, if_true] at hl' ⊢
+    have hframes : (d / h.nb) % h.ch = 0 := by
+      rcases hcase with h1 | h1
+      · have : h.ch = 1 := by omega
+        rw [this]; exact Nat.mod_one _
+      · rw [hm] at h1; exact_mod_cast h1
+    have hno : d % h.nb = 0 := by
+      by_cases h0 : d % h.nb = 0
+      · exact h0
+      · exact absurd ⟨h0, hframes⟩ hk
+    have hd := Nat.div_add_mod d h.nb
+    have hmul : h.nb * (d / h.nb) = d / h.nb * h.nb := Nat.mul_comm _ _
+    have e : d / h.nb * h.nb = d := by omega
+    exact_mod_cast e.symm
+  · rw [if_neg hcase] at hl'
+    exact absurd hl' (by simp)
+
+/-- 16-bit mono, four items, the write callback accepts 7 of the 8 bytes -/
+def tH : H := { store := 0, mode := .w, container := .raw, enc := .pcm ⟨16, false, false⟩, big := false, ch := 1, sr := 8000,
+                fmtWord := 0x10040002, frames := 0, lastOp := .w }
+def tO : Oracle := fun _ r => match r with
+  | .write d => { n := ((d.length - 1 : Nat) : Int) }
+  | _ => {}
+
+theorem tO_contract : tO.Contract := by
+  intro hist r
+  cases r <;> simp [tO, Ans.ok]
+
+theorem torn_item_witness :
+    (writeTail tO tH [] .s16 false 4 [1, 2, 3, 4]).out.ret = 3 ∧ (writeTail tO tH [] .s16 false 4 [1, 2, 3, 4]).h.lastOp = .w ∧
+    stored (writeTail tO tH [] .s16 false 4 [1, 2, 3, 4]).hist = 7 := by
+  unfold writeTail
+  have hnb : tH.nb = 2 := by decide
+  have hst : stageLen tH.enc .s16 true = 0 := by decide
+  have h4 : (4 : Int).toNat = 4 := by decide
+  simp only [hnb, hst, h4]
+  rw [writeLoop]
+  simp [roundLen, fwrite, call, seekFailed, tH, tO, wholeFrames, stored, Enc.encodeAll]
+  decide
+
+/-- THE CODE VIOLATES THE FULL STATEMENT (KF-C15-TORN-ITEM): 3 items returned, 7 bytes stored, no re-seek ahead -/
+theorem no_fragment_full_fails : ¬ no_fragment_full := by
+  intro hfull
+  obtain ⟨r, l, st⟩ := torn_item_witness
+  obtain ⟨d, hs, he⟩ := hfull tO tO_contract tH [] .s16 4 [1, 2, 3, 4] (by decide) (by decide) l
+  rw [st] at hs
+  rw [r] at he
+  have hnb : (tH.nb : Int) = 2 := by decide
+  rw [hnb] at he
+  simp only [stored, Nat.zero_add] at hs
+  omega
+
+example : KF.tornItem 7 2 1 := by unfold KF.tornItem; decide
+example : ¬ KF.tornItem 8191 2 2 := by unfold KF.tornItem; decide      -- 4095 items, two channels: the item count is rounded and the next call seeks
+example : KF.tornItem 8191 2 3 := by unfold KF.tornItem; decide        -- 4095 items = 1365 frames of three channels: nothing re-aligns
 
 /-! ## the predicate of the campaign -/
 
